@@ -204,13 +204,10 @@ fn c03_send_none_contract() {
     assert!(out[LINE.len() + 6] == b[0] && out[LINE.len() + 7] == b[1] && starts_with(&out, LINE.len() + 8, b"\r\n\r\n"), "send(None): value then CRLF CRLF");
 }
 
-/// complete(): 204 => no Content-Length and no content, whatever was set before
-#[kani::proof]
-#[kani::unwind(50)]
-fn c03_complete_204_contract() {
+/// complete(): 204 => no Content-Length and no content, whatever was set before; k -> (Content-Length present?, payload present?) as compile-time shape
+fn complete_204_body(k: usize) {
+    let (with_cl, with_body) = (k & 1 != 0, k & 2 != 0);
     let mut h = empty_headers();
-    let with_cl: bool = kani::any();
-    let with_body: bool = kani::any();
     if with_cl { h.insert(Header::ContentLength, Cow::Borrowed("2")); }
     let body: [u8; 2] = kani::any();
     let mut res = Response { status: Status::NoContent, headers: h,
@@ -219,8 +216,10 @@ fn c03_complete_204_contract() {
     assert!(res.headers.ContentLength().is_none(), "complete: 204 carries no Content-Length");
     assert!(matches!(res.content, Content::None), "complete: 204 carries no body");
     assert!(res.headers.size == 2, "complete: size follows the removal");
-    kani::cover!(with_cl && with_body);
+    std::mem::forget(res);
+    kani::cover!(true);
 }
+//@chunks 4 c03_complete_204_contract complete_204_body #[kani::proof] #[kani::unwind(50)]
 
 /// set_payload / set_text: Content-Length is the decimal of the body length, Content-Type set, size invariant kept
 #[kani::proof]
